@@ -53,6 +53,8 @@ var outboxKinds = map[string]bool{
 	"wrong-json-type":         false,
 	"tombstone":               false,
 	"actor-id-prefix":         false, // another actor whose id merely starts with the owner's id
+	"own-activity-relative-actor":        true,  // "actor": "/…/owner" resolved against the activity's own (owner's) host
+	"other-host-activity-relative-actor": false, // an activity hosted elsewhere whose relative actor resolves to that other host's actor
 }
 
 var replyKinds = map[string]bool{
@@ -112,6 +114,13 @@ func (w *world) entryValue(c Case, i int, e Entry) any {
 			act["actor"] = map[string]any{"type": "Person", "name": "anonymous"}
 		case "actor-id-prefix":
 			act["actor"] = w.h0("/owner2")
+		case "own-activity-relative-actor":
+			act["actor"] = w.prefix + "/owner"
+		case "other-host-activity-relative-actor":
+			act["actor"] = w.prefix + "/owner"
+			act["id"] = w.h1(fmt.Sprintf("/e%d", i))
+			w.docs1[fmt.Sprintf("/e%d", i)] = js(act)
+			return w.h1(fmt.Sprintf("/e%d", i))
 		case "note-not-activity":
 			act = note
 		case "tombstone":
@@ -279,11 +288,39 @@ func check(c Case) vrep.Result {
 		}
 		return vrep.Result{Classes: classes, Err: fmt.Errorf("the %s has %d entries but %d items are listed (something was dropped or invented): %q", c.Listing, len(c.Entries), len(items), names)}
 	}
+	// a second pass, one item at a time (whatever the first pass left behind in the process must not change a verdict)
+	second := []pub.Tangible{}
+	var cont pub.Container = children
+	var off uint
+	for cont != nil && len(second) < len(c.Entries)+3 {
+		var got []pub.Tangible
+		got, cont, off = cont.Harvest(1, off)
+		second = append(second, got...)
+		if len(got) == 0 {
+			break
+		}
+	}
+	if len(second) == len(items) {
+		for i := range items {
+			_, f1 := items[i].(*pub.Failure)
+			_, f2 := second[i].(*pub.Failure)
+			if f1 != f2 {
+				return vrep.Result{Classes: classes, Err: fmt.Errorf("entry %d (%s via %s) was shown as %T when the listing was loaded at once and as %T when it was paged item by item afterwards (%q)", i, c.Entries[i].Kind, c.Entries[i].Transport, items[i], second[i], plain(second[i].Name()))}
+			}
+		}
+	} else {
+		return vrep.Result{Classes: classes, Err: fmt.Errorf("paging the %s item by item yields %d items, loading it at once %d", c.Listing, len(second), len(items))}
+	}
 	for i, e := range c.Entries {
 		it := items[i]
 		name := plain(it.Name())
 		_, isFailure := it.(*pub.Failure)
 		shownGenuine := !isFailure && strings.Contains(name+plain(it.String(80)), token(i))
+		if e.Kind == "own-activity-relative-actor" && e.Transport == "embedded-noid" {
+			// an activity without an id gives a relative actor reference no base to resolve against: either outcome
+			classes = append(classes, "may:relative-actor-without-base")
+			continue
+		}
 		if e.Kind == "reply-same-host-author" && e.Transport == "embedded-noid" {
 			// a post without an id has no host of its own; the statement does not say whether it may carry an author: either outcome
 			classes = append(classes, "may:id-less-post-with-author")
